@@ -16,7 +16,7 @@ RULE = ("histories of ~18 steps over 1-3 proxies and 1-5 concurrently open strea
         "{0,5} x ITER_STREAM_LINGER {0,3} x both server types. distinct = (history hash, step); non-trivial = the step concerns an open stream")
 ASSUMPTIONS = ["the virtual clock starts at 1e9 (a linger stamp of 0 means 'none' in Pyro's code)", "after every client-side disconnect / oneway close the harness waits for the server-side event (10 s watchdog, expiry = inconclusive)",
                "a stream whose deadline has passed may be forgotten at any time until the next explicit housekeeping step, after which it must be gone"]
-REQUIRED_REACH = ["relayed_streams_ok", "reconnect_fetches_ok", "cross_thread_closes_ok", "connected_socket_streams_ok", "histories_with_failing_disconnect_hook", "items_ok", "stopiteration_ok", "generator_exception_ok", "forgotten_ok", "reconnect_continues", "linger_expired", "lifetime_expired", "table_checked", "streaming_disabled_ok", "racing_reconnects", "server_ended_connections", "housekeeping_during_fetch", "histories_under_one_correlation_id", "concurrent_streams_checked", "slow_item_streams_checked", "natural_housekeeping_ok"]
+REQUIRED_REACH = ["shards_with_daemon_annotations_hook", "relayed_streams_ok", "reconnect_fetches_ok", "cross_thread_closes_ok", "connected_socket_streams_ok", "histories_with_failing_disconnect_hook", "items_ok", "stopiteration_ok", "generator_exception_ok", "forgotten_ok", "reconnect_continues", "linger_expired", "lifetime_expired", "table_checked", "streaming_disabled_ok", "racing_reconnects", "server_ended_connections", "housekeeping_during_fetch", "histories_under_one_correlation_id", "concurrent_streams_checked", "slow_item_streams_checked", "natural_housekeeping_ok"]
 SHARD_TIMEOUT = {"quick": 240, "thorough": 3000}
 
 
@@ -956,6 +956,10 @@ def run_shard(shard, rec):
     fx = fixture.Fixture(servertype=shard["servertype"], COMMTIMEOUT=0.0, ITER_STREAMING=shard["streaming"], ITER_STREAM_LIFETIME=float(shard["lifetime"]),
                          ITER_STREAM_LINGER=float(shard["linger"]), THREADPOOL_SIZE=20, variant=fixture.variant_for(rec.seed, "c10", repr(sorted(shard.items()))))
     rec.count("fixture_variant:" + fx.variant)
+    if core.h64(repr(sorted(shard.items()))) % 2:
+        # the application's Daemon.annotations() hook hands out one long-lived dict of its own (node name, build id) with every reply
+        fx.daemon.reply_annotations = {"NODE": b"c10-node", "BLD1": b"r7"}
+        rec.count("shards_with_daemon_annotations_hook")
     try:
         fx.register(make_service(P), "src")
         if shard["servertype"] == "thread":
